@@ -47,14 +47,15 @@ CONC_INV_WEAK = [i for i in CONC_INV if i not in ("EveryRecordWritten", "Returns
 
 def log_consts(levels, thr, batches, recs, maxh, maxlogs, maxgroups, steps, clip=True, emit_all=None,
                shapes="NoShapes", sizes="SizesNone", relogs=0, share=True, clone=True, rebind=False,
-               faults="NoFaults", maxfaults=0, defer_unlock=True, sticky=True):
+               faults="NoFaults", maxfaults=0, defer_unlock=True, sticky=True, live=0, ticks=0, resolve=False):
     tf = lambda b: "TRUE" if b else "FALSE"
     c = {"Levels": "<- " + levels, "Thresholds": "<- " + thr,
          "Batches": "{%s}" % ", ".join(map(str, batches)), "RecSizes": "{%s}" % ", ".join(map(str, recs)),
          "RecShapes": "<- " + shapes, "Sizes": "<- " + sizes, "LargeSizes": "<- Large",
          "MaxH": maxh, "MaxLogs": maxlogs, "MaxRelogs": relogs, "MaxGroups": maxgroups, "MaxSteps": steps,
          "ClipOnDerive": tf(clip), "ShareOnCopy": tf(share), "CloneBeforeAdd": tf(clone), "RebindOnLarge": tf(rebind),
-         "Faults": "<- " + faults, "MaxFaults": maxfaults, "DeferUnlock": tf(defer_unlock), "StickyError": tf(sticky)}
+         "Faults": "<- " + faults, "MaxFaults": maxfaults, "DeferUnlock": tf(defer_unlock), "StickyError": tf(sticky),
+         "LiveKind": live, "MaxTicks": ticks, "ResolveOnDerive": tf(resolve)}
     if emit_all is not None:
         c["EmitAll"] = tf(emit_all)
     return c
@@ -131,7 +132,8 @@ def run(ctx):
         "a record value may be handed to Handle any number of times (same handler, siblings, concurrently) without Clone; the "
         "caller does not modify it meanwhile",
         "attribute keys/values come from a fixed table (quotes, newlines, control bytes, invalid UTF-8, empty/odd keys, groups, "
-        "numbers, times, []byte, errors, nil, TextMarshaler, LogValuer); the handler treats other values alike",
+        "numbers, times, []byte, errors, nil, TextMarshaler, LogValuer, and live LogValuers whose result the environment "
+        "changes between derivation and Handle and between Handles); the handler treats other values alike",
         "WithGroup is modelled as 'panics, changes nothing' (what the code does; the statement is silent)",
     ]
 
@@ -174,7 +176,7 @@ def run(ctx):
                                       ("d7k1", 7, [1]), ("d7k2", 7, [2]), ("d7k3", 7, [3])]
     for name, depth, batches in trees:
         jobs.append(Job("gen-trees-" + name, "HybridLogGen", "GSpec",
-                        log_consts("LevelsEdge", "ThrTree", batches, [1], depth + 1, 0, 0, depth, emit_all=False),
+                        log_consts("LevelsEdge", "ThrTree", batches, [1], depth + 1, 0, 0, depth, emit_all=False, live=1),
                         invariants=["Emit", "AttrsImmutable"], timeout=3600))
     # MC of the sequential model
     if q:
@@ -198,9 +200,9 @@ def run(ctx):
                         invariants=REC_INV))
     # G: records handled again (same handler, a sibling, the parent) and records built by several AddAttrs calls
     if q:
-        c = log_consts("LevelsOne", "ThrInfo", [1, 2], [0], 3, 2, 0, 4, shapes="ShapesQuick", relogs=2, emit_all=False)
+        c = log_consts("LevelsOne", "ThrInfo", [1, 2], [0], 3, 2, 0, 4, shapes="ShapesQuick", relogs=2, emit_all=False, live=2)
     else:
-        c = log_consts("LevelsOne", "ThrInfo", [1], [0], 3, 2, 0, 5, shapes="ShapesQuick", relogs=2, emit_all=False)
+        c = log_consts("LevelsOne", "ThrInfo", [1], [0], 3, 2, 0, 5, shapes="ShapesQuick", relogs=2, emit_all=False, live=2)
     jobs.append(Job("gen-records", "HybridLogGen", "GSpec", c, invariants=["Emit", "LinesCorrect", "RecordStorageUntouched"]))
     # G: records whose text line is 4 KiB-1 .. 1 MiB long, interleaved with small ones, on the root and a derived handler
     if q:
@@ -208,6 +210,20 @@ def run(ctx):
     else:
         c = log_consts("LevelsOne", "ThrInfo", [1], [1], 2, 4, 0, 4, sizes="SizesAll", relogs=1, emit_all=False)
     jobs.append(Job("gen-sizes", "HybridLogGen", "GSpec", c, invariants=["Emit", "LinesCorrect", "NoPanic", "ItemBound"]))
+    # Live attribute values (environment state): a LogValuer whose result depends on a cell the environment changes
+    # between steps, given to WithAttrs at every depth and carried by records; the line shows the value at Handle time.
+    # MC, then G with explicit Tick steps (in the other G jobs the harness changes the cell before every Handle).
+    lv = dict(ticks=2, relogs=1)
+    jobs.append(Job("log-mc-live", "HybridLogMC", "Spec",
+                    log_consts("LevelsOne", "ThrInfo", [1, 2], [0, 2], 4, 2, 0, 5 if q else 6, live=1, **lv),
+                    invariants=MC_INV + ["LiveValuesCurrent"]))
+    for kind, maxh in ([(1, 3)] if q else [(1, 3), (2, 4)]):
+        jobs.append(Job("gen-live-%d" % kind, "HybridLogGen", "GSpec",
+                        log_consts("LevelsOne", "ThrInfo", [1, 2], [0, 2], maxh, 2, 0, 5, live=kind, emit_all=False, **lv),
+                        invariants=["Emit", "LinesCorrect", "LiveValuesCurrent"]))
+    jobs.append(Job("log-mc-resolve-on-derive", "HybridLogMC", "Spec",
+                    log_consts("LevelsOne", "ThrInfo", [1, 2], [0, 2], 3, 2, 0, 4, live=1, resolve=True, **lv),
+                    invariants=("LiveValuesCurrent",), wrong=("LiveValuesCurrent",)))
     # Writer faults (environment): the next Write returns an error / writes short / panics (the caller recovers);
     # every later record must be handled as if nothing had happened.  MC, then G over the same actions.
     fl = dict(faults="FaultsAll", maxfaults=2, sizes="SizesLS", relogs=1)
@@ -224,9 +240,9 @@ def run(ctx):
                     invariants=["Emit", "LinesCorrect", "StaleOnlyAfterError", "NotWedged", "LinesAreTheGoodCalls"]))
     # G: mixed derive / log (all 7 levels) / WithGroup paths, all prefixes
     if q:
-        c = log_consts("LevelsAll", "ThrWarn", [0, 2], [1, 6], 3, 2, 1, 4, emit_all=True)
+        c = log_consts("LevelsAll", "ThrWarn", [0, 2], [1, 6], 3, 2, 1, 4, emit_all=True, live=1)
     else:
-        c = log_consts("LevelsAll", "ThrMC", [0, 2], [1, 6], 3, 2, 1, 4, emit_all=True)
+        c = log_consts("LevelsAll", "ThrMC", [0, 2], [1, 6], 3, 2, 1, 4, emit_all=True, live=1)
     jobs.append(Job("gen-mixed", "HybridLogGen", "GSpec", c, invariants=["Emit", "AttrsImmutable", "LinesCorrect"]))
     if not q:
         jobs.append(Job("conc-mc-4", "HybridConcMC", "Spec", conc_consts("G1111", 4), invariants=CONC_INV,
@@ -237,7 +253,7 @@ def run(ctx):
                             invariants=["Emit", "OneWriter", "LinesCorrect", "BufExclusive"], simulate=num, depth=200))
     # G: long random paths: deeper trees (capacity growth 4 -> 8 -> 16), many lines
     jobs.append(Job("gen-sim", "HybridLogGen", "GSpec",
-                    log_consts("LevelsEdge", "ThrMC", B, [1, 6], 19, 19, 19, 18, emit_all=False),
+                    log_consts("LevelsEdge", "ThrMC", B, [1, 6], 19, 19, 19, 18, emit_all=False, live=2),
                     invariants=["Emit", "AttrsImmutable", "LinesCorrect"], simulate=120 if q else 500, depth=19))
     # MC of the concurrent model, 3 calls, all interleavings
     jobs.append(Job("conc-mc-3", "HybridConcMC", "Spec", conc_consts("G111", 3), invariants=CONC_INV,
@@ -352,7 +368,8 @@ def run(ctx):
     phase["tlc"] = round(time.time() - t0, 1)
     exhaustive_paths = 0
     gsum = {}
-    for name, exhaustive in [("gen-trees-" + t[0], True) for t in trees] + [("gen-records", True), ("gen-sizes", True), ("gen-faults", True), ("gen-mixed", True), ("gen-levels", True), ("gen-sim", False)]:
+    for name, exhaustive in [("gen-trees-" + t[0], True) for t in trees] + [("gen-records", True), ("gen-sizes", True), ("gen-faults", True)] + \
+            [(j.name, True) for j in jobs if j.name.startswith("gen-live-")] + [("gen-mixed", True), ("gen-levels", True), ("gen-sim", False)]:
         path = byname[name].dir / "hybrid_vectors.ndjson"
         n = count_lines(path)
         rf = ctx.scratch / ("tree_%s.res" % name)
